@@ -2,7 +2,8 @@
    Statements only (proofs in Proofs*.v).  gen/Tables.v is regenerated from the
    tree under test on every run; everything below is re-checked against it. *)
 From Coq Require Import String Ascii List Bool ZArith.
-From FV.C01 Require Import Str Dec Model ProofsText.
+From Coq Require Import Reals.
+From FV.C01 Require Import Str Dec Model ProofsText Orient.
 From FV.C01.gen Require Import Tables.
 Import ListNotations.
 Local Open Scope string_scope.
@@ -29,6 +30,40 @@ Proof. intros row H. split; [now apply perm_write_ok|now apply perm_inverse]. Qe
 (* the real format carries 13 significant digits *)
 Theorem C01_thirteen_digits : frac_digits = 12%nat.
 Proof. vm_compute. reflexivity. Qed.
+
+(* --- orientation ----------------------------------------------------- *)
+(* femio's signed volume (x 6, mode 'linear') of an element equals / is a
+   positive multiple of FrontISTR's orientation measure (S-definitions in
+   Orient.v) of the node order that is written, for every coordinate value:
+   all tetrahedra; all prisms whose top is a translate of the bottom (affine
+   images of the reference prism); all parallelepipeds. *)
+Theorem C01_orientation_tet :
+  forall a b c d : R * R * R,
+  match to_fistr "tet" [a; b; c; d] with
+  | [q1; q2; q3; q4] => r6_tet a b c d = rf341 q1 q2 q3 q4
+  | _ => False
+  end.
+Proof. exact orient_tet. Qed.
+
+Theorem C01_orientation_prism :
+  forall p0 p1 p2 w : R * R * R,
+  match to_fistr "prism" [p0; p1; p2; radd p0 w; radd p1 w; radd p2 w] with
+  | [q1; q2; q3; q4; q5; q6] =>
+    r6_prism p0 p1 p2 (radd p0 w) (radd p1 w) (radd p2 w) = rf351 q1 q2 q3 q4 q5 q6
+  | _ => False
+  end.
+Proof. exact orient_prism. Qed.
+
+Theorem C01_orientation_hex :
+  forall p0 u v w : R * R * R,
+  let p1 := radd p0 u in let p3 := radd p0 v in let p2 := radd (radd p0 u) v in
+  let p4 := radd p0 w in let p5 := radd p1 w in let p6 := radd p2 w in let p7 := radd p3 w in
+  match to_fistr "hex" [p0; p1; p2; p3; p4; p5; p6; p7] with
+  | [q1; q2; q3; q4; q5; q6; q7; q8] =>
+    (8 * r6_hex p0 p1 p2 p3 p4 p5 p6 p7 = 6 * rf361 q1 q2 q3 q4 q5 q6 q7 q8)%R
+  | _ => False
+  end.
+Proof. exact orient_hex. Qed.
 
 (* --- numeric layer ---------------------------------------------------- *)
 Theorem C01_int_field_roundtrip :
